@@ -166,25 +166,34 @@ class FileLock:
         if not self._locked or self._lock_fd is None:
             return
 
+        fd = self._lock_fd
         try:
             if self._used_excl_fallback:
-                os.close(self._lock_fd)
                 try:
-                    os.unlink(self.lock_file)
-                except (IOError, OSError):
-                    pass
+                    os.close(fd)
+                finally:
+                    try:
+                        os.unlink(self.lock_file)
+                    except (IOError, OSError):
+                        pass
             else:
-                if FCNTL_AVAILABLE:
-                    fcntl.flock(self._lock_fd, fcntl.LOCK_UN)
-                elif MSVCRT_AVAILABLE:
-                    msvcrt.locking(self._lock_fd, msvcrt.LK_UNLCK, 1)  # type: ignore[attr-defined]
-                os.close(self._lock_fd)
-
-            self._lock_fd = None
-            self._locked = False
+                try:
+                    if FCNTL_AVAILABLE:
+                        fcntl.flock(fd, fcntl.LOCK_UN)
+                    elif MSVCRT_AVAILABLE:
+                        msvcrt.locking(fd, msvcrt.LK_UNLCK, 1)  # type: ignore[attr-defined]
+                finally:
+                    # Closing the descriptor drops a kernel lock even when the
+                    # explicit unlock failed. Skipping the close (as happened
+                    # when unlock raised) kept the lock held for as long as this
+                    # object lived: every later commit in the process timed out.
+                    os.close(fd)
         except Exception:
             # Best effort cleanup
             pass
+        finally:
+            self._lock_fd = None
+            self._locked = False
 
     def __enter__(self) -> "FileLock":
         """Context manager entry."""
